@@ -1,0 +1,18 @@
+//go:build verif
+
+package apk
+
+import "context"
+
+// Hooks for the verification harness in /verif (suite `indexsig`, property C04). Compiled only
+// with `-tags verif`; thin exported wrappers around unexported identifiers, no behaviour of their own.
+
+// VerifParseRepositoryIndex calls parseRepositoryIndex with the given signature options.
+func VerifParseRepositoryIndex(ctx context.Context, u string, keys map[string][]byte, arch string, b []byte, ignoreSignatures bool, noSignatureIndexes []string) (*APKIndex, error) {
+	return parseRepositoryIndex(ctx, u, keys, arch, b, &indexOpts{ignoreSignatures: ignoreSignatures, noSignatureIndexes: noSignatureIndexes})
+}
+
+// VerifShouldCheckSignatureForIndex calls shouldCheckSignatureForIndex.
+func VerifShouldCheckSignatureForIndex(index, arch string, ignoreSignatures bool, noSignatureIndexes []string) bool {
+	return shouldCheckSignatureForIndex(index, arch, &indexOpts{ignoreSignatures: ignoreSignatures, noSignatureIndexes: noSignatureIndexes})
+}
